@@ -151,6 +151,24 @@ pub fn apply(ctx: &mut Ctx, op: &Op) -> (String, i64) {
                 store.strip_annotation_ids();
                 Ok(0)
             }
+            "Transpose" => {
+                let tag = a["tag"].as_str().unwrap_or("");
+                let builders = {
+                    let src = store
+                        .annotation(bi::<Annotation>(&rf(&a["src"]), style))
+                        .ok_or(StamError::OtherError("harness: source annotation does not resolve"))?;
+                    let via = store
+                        .annotation(bi::<Annotation>(&rf(&a["via"]), style))
+                        .ok_or(StamError::OtherError("harness: transposition does not resolve"))?;
+                    let mut cfg = TransposeConfig::default();
+                    cfg.transposition_id = Some(style.conc(&format!("tp{}", tag)));
+                    cfg.resegmentation_id = Some(style.conc(&format!("rs{}", tag)));
+                    cfg.target_side_ids = ["a", "b", "c"].iter().map(|x| style.conc(&format!("tt{}{}", tag, x))).collect();
+                    src.transpose(&via, cfg)?
+                };
+                store.annotate_from_iter(builders)?;
+                Ok(0)
+            }
             "ProtectText" => {
                 let mode = match a["mode"].as_str().unwrap_or("auto") {
                     "checksum" => TextValidationMode::Checksum,
